@@ -37,23 +37,28 @@ double p_f_g(void *i, const double *x, double *o) { tag(D(i), "f_g"); k_g(D(i), 
 void p_gfggp(void *i, const double *x, const double *y, double *a, double *b) {
     tag(D(i), "grad_f_grad_g_prod"); k_grad_f(D(i), x, a); k_grad_g_prod(D(i), x, y, b);
 }
-void p_grad_L(void *i, const double *x, const double *y, double *o, double *) {
+void p_grad_L(void *i, const double *x, const double *y, double *o, double *wn) {
     tag(D(i), "grad_L"); k_grad_L(D(i), x, y, o);
+    work_vec(D(i), "grad_L", "work_n", wn, -1, D(i).n);
 }
 double p_psi(void *i, const double *x, const double *y, const double *S, const double *zl,
              const double *zu, double *yh) {
     tag(D(i), "psi"); return k_psi(D(i), x, y, S, nS(i), zl, zu, yh);
 }
 void p_grad_psi(void *i, const double *x, const double *y, const double *S, const double *zl,
-                const double *zu, double *o, double *, double *) {
+                const double *zu, double *o, double *wn, double *wm) {
     tag(D(i), "grad_psi"); k_grad_psi(D(i), x, y, S, nS(i), zl, zu, o);
+    work_vec(D(i), "grad_psi", "work_n", wn, -1, D(i).n);
+    work_vec(D(i), "grad_psi", "work_m", wm, -1, D(i).m);
 }
 double p_psi_grad_psi(void *i, const double *x, const double *y, const double *S, const double *zl,
-                      const double *zu, double *o, double *, double *) {
+                      const double *zu, double *o, double *wn, double *wm) {
     tag(D(i), "psi_grad_psi");
     std::vector<double> yh(D(i).m);
     double p = k_psi(D(i), x, y, S, nS(i), zl, zu, yh.data());
     k_grad_psi(D(i), x, y, S, nS(i), zl, zu, o);
+    work_vec(D(i), "psi_grad_psi", "work_n", wn, -1, D(i).n);
+    work_vec(D(i), "psi_grad_psi", "work_m", wm, -1, D(i).m);
     return p;
 }
 void p_hess_L_prod(void *i, const double *x, const double *y, double s, const double *v, double *o) {
